@@ -9,12 +9,14 @@ Static rules over the resolved program (clang front end facts; nothing is execut
  * E6.omega-scale            SSOR result scaled by omega*(2-omega) exactly once, SOR not scaled
  * E2.ilu-solve              solve_il / solve_du: direction, array family, row update
  * E4.ilu-level-fold         ILU(p) level-of-fill recurrence: duplicate insertion folds with min, level = lev(L)+lev(U)+1, keep iff <= p
+ * E3.merge-cursor           cursors of the sorted-row merges in factorize_numeric_il_du advance only over consumed / matched entries
  * E8.ilu-init-order         set_struct -> factorize_symbolic -> alloc_data;  copy_data -> factorize_numeric; apply: L then DU
  * E7.filter-follows         every normal exit of apply() is preceded by _filter.filter_cor(out), nothing writes out afterwards
  * E7.output-defined         out is defined (not read) first on every path; E7.input-const: input never written
  * E7.wrapper-delegates      SOR/SSOR/ILU front classes forward every operation to the same operation of the implementation
  * E8.refresh-covers         ILU copy_data_*: every slot of L, D, U (fill-in positions included) is assigned on every path
  * E6.ilu-factor-form        operand order of the numeric ILU factorisation (L_ij D_jj^-1, X - L_ij U_jk), scalar and blocked
+ * E8.partial-fill-reinit    Vanka: the dense local-matrix array filled by gather routines is re-zeroed on every init_numeric
  * E8.numeric-refresh        every member read by apply() that is computed from matrix values is freshly rewritten on every
                              path through init_numeric;  E8.symbolic-structure-only: init_symbolic reads no matrix values
  * E5.operator-form          Jacobi / Polynomial / Scale / Diagonal / Matrix: apply() as a symbolic linear operator equals
@@ -1199,6 +1201,280 @@ def check_level_fold(ck, fns, inst):
             ck.ob(rule, "%s::factorize_symbolic/level 0 of A in %s" % (inst, fam_.upper()), vals == [0], "entries of A enter %s with level %s" % (fam_.upper(), vals), fs.file, zero[0].get("l"))
 
 
+def check_merge_cursor(ck, f, inst):
+    """merge-cursor discipline of the sorted-row merges in factorize_numeric_il_du: a cursor into a sorted column-index list
+    advances either as the increment of a loop that iterates / skips entries (`c < end`, `cidx[c] <= target`), or, in straight
+    code, only under a successful match `cidx[c] == target` of the entry it points to"""
+    rule = "E3.merge-cursor"
+    view = FnView(f)
+    cursors = {}
+    for n in walk(f.body):
+        el = element(view, n) if n.get("k") in ("Index", "OpCall") else None
+        if el and el[0].startswith("_col_idx_"):
+            ix = strip(el[1])
+            if ix.get("k") == "Ref" and ix.get("dk") == "local":
+                cursors.setdefault(ix["d"], (ix["n"], el[0]))
+    if not cursors:
+        ck.incomplete(rule, "%s: no cursor into a column-index array found" % inst)
+        return
+
+    def conjuncts(c):
+        c = view.value(c)
+        if c.get("k") == "Bin" and c.get("op") == "&&":
+            return conjuncts(c["lhs"]) + conjuncts(c["rhs"])
+        return [c]
+
+    def mentions(n, d):
+        return any(x.get("k") == "Ref" and x.get("d") == d for x in walk(n))
+
+    def is_match(c, d):
+        if c.get("k") == "Bin" and c.get("op") == "==":
+            for x in (c["lhs"], c["rhs"]):
+                el = element(view, x)
+                if el and el[0].startswith("_col_idx_") and strip(el[1]).get("d") == d:
+                    return True
+        return False
+    seen = {}
+    for d, (nm, arr) in sorted(cursors.items(), key=lambda kv: kv[1][0]):
+        for w in view.writes.get(d, []):
+            if not pcmodel.is_step(w):
+                continue      # (re)positioning by assignment
+            # increment of a loop?
+            loop = None
+            p = view.parent.get(w.get("i"))
+            child = w
+            chain = []
+            while p is not None:
+                chain.append((p, child))
+                child, p = p, view.parent.get(p.get("i"))
+            key = None
+            verdict = None
+            for par, ch in chain:
+                if par.get("k") == "For" and par.get("inc") is not None and ch.get("i") in {x.get("i") for x in walk(par["inc"])}:
+                    loop = par
+                    break
+            if loop is not None:
+                cj = conjuncts(loop.get("c") or {})
+                own = [c for c in cj if mentions(c, d)]
+                key = "%s/%s: loop increment" % (inst, nm)
+                if not own:
+                    ck.incomplete(rule, "%s: loop %s advances %s without testing it" % (inst, render(loop), nm))
+                    continue
+                verdict = (True, "advances as the increment of the loop `%s`" % " && ".join(render(c) for c in own))
+            else:
+                guards = []
+                unknown = None
+                for par, ch in chain:
+                    if par.get("k") == "If":
+                        in_then = par.get("then") is not None and ch.get("i") in {x.get("i") for x in walk(par["then"])}
+                        cv = view.value(par.get("c") or {})
+                        if not in_then:
+                            unknown = "the advance sits in the else-branch of `%s`" % render(cv)
+                        elif cv.get("k") == "Bin" and cv.get("op") == "||":
+                            unknown = "condition `%s`" % render(cv)
+                        else:
+                            guards += conjuncts(cv)
+                    elif par.get("k") in ("For", "While", "Do"):
+                        break
+                key = "%s/%s: advance after a match" % (inst, nm)
+                if any(is_match(g, d) for g in guards):
+                    verdict = (True, "`%s` is executed only if `%s`" % (render(w), " && ".join(render(g) for g in guards)))
+                elif unknown:
+                    ck.incomplete(rule, "%s: advance `%s` (line %s): %s" % (inst, render(w), w.get("l"), unknown))
+                    continue
+                else:
+                    verdict = (False, "`%s` is executed whenever `%s`, also when the entry %s[%s] does not match the wanted column: the unmatched entry is skipped and never processed (structurally unsymmetric patterns)" % (
+                        render(w), " && ".join(render(g) for g in guards) or "always", arr[1:], nm))
+            seen[key] = seen.get(key, 0) + 1
+            if seen[key] > 1:
+                key += "#%d" % seen[key]
+            ck.ob(rule, key, verdict[0], verdict[1], f.file, w.get("l"))
+
+
+# -------------------------------------------------------------------------------------------------
+# storage that init_numeric fills only partially must be re-initialised on every init_numeric (Vanka local matrices)
+# -------------------------------------------------------------------------------------------------
+
+def check_partial_fill_reinit(ck, facts, cls, inst):
+    """For every std::vector member M of the class that apply() reads: if a function reached from init_numeric hands a
+    pointer into M to a routine that stores only under a match test (gather of the structural non-zeros), then M is
+    re-initialised over its whole extent (memset / std::fill / assign / full loop) before, on every path, in that
+    function or in init_numeric before the call"""
+    rule = "E8.partial-fill-reinit"
+    fns = {}
+    for f in facts.functions:
+        if f.tk != "pattern" and f.cls == cls:
+            fns.setdefault(f.name, f)
+    if "init_numeric" not in fns or "apply" not in fns:
+        ck.incomplete(rule, "%s: init_numeric / apply vanished" % inst)
+        return
+    S = Summaries(facts)
+    applied = S.analyse(fns["apply"])["reads"]
+    byclsname = {}
+    for f in facts.functions:
+        if f.tk != "pattern":
+            byclsname.setdefault((f.cls, f.name, len(f.params)), f)
+
+    def base_member(view, n, depth=0):
+        """(member name, is_base_pointer) if n is a pointer into a vector member: M.data(), &M[..], alias, &alias[off], alias + off"""
+        n = strip(n)
+        if depth > 10:
+            return None
+        k = n.get("k")
+        if k == "MCall" and n.get("n") in ("data", "begin") and pcsym.this_field(n.get("obj") or {}):
+            return pcsym.this_field(n["obj"]), True
+        if k == "Un" and n.get("op") == "&":
+            e = strip(n["e"])
+            if e.get("k") == "Index":
+                r = base_member(view, e["b"], depth + 1)
+                return (r[0], False) if r else None
+            if e.get("k") == "OpCall" and e.get("op") == "[]" and pcsym.this_field(e["a"][0]):
+                return pcsym.this_field(e["a"][0]), False
+        if k == "Bin" and n.get("op") in ("+", "-"):
+            r = base_member(view, n["lhs"], depth + 1)
+            return (r[0], False) if r else None
+        if k == "Ref" and n.get("dk") == "local":
+            var = view.locals.get(n["d"])
+            if var is not None and not view.writes.get(n["d"]) and var.get("init") is not None and "*" in view.fn.type(var["t"]):
+                return base_member(view, var["init"], depth + 1)
+        return None
+
+    def callee_store_kind(call, argpos):
+        """'partial' if every store through the callee's pointer parameter is control-dependent on an if; 'full?' if some
+        store is unconditional; None if the callee body is not available"""
+        cal = byclsname.get((call.get("ccls"), (call.get("callee") or "").rsplit("::", 1)[-1], len(call.get("pn") or [])))
+        if cal is None or argpos >= len(cal.params):
+            return None
+        cv = FnView(cal)
+        pd = cal.params[argpos]["d"]
+        stores = []
+        for n in walk(cal.body):
+            tgt = None
+            if n.get("k") == "Assign":
+                tgt = strip(n["lhs"])
+            elif n.get("k") == "OpCall" and n.get("op") in ("=", "+=", "-=") and n.get("a"):
+                tgt = strip(n["a"][0])
+            while tgt is not None and tgt.get("k") in ("Index",) :
+                b = strip(tgt["b"])
+                if b.get("k") == "Ref" and b.get("d") == pd:
+                    cond = False
+                    q = cv.parent.get(n.get("i"))
+                    while q is not None:
+                        if q.get("k") in ("If", "Cond", "Switch"):
+                            cond = True
+                        q = cv.parent.get(q.get("i"))
+                    stores.append(cond)
+                    break
+                tgt = b if b.get("k") == "Index" else None
+        if not stores:
+            return None
+        return "partial" if all(stores) else "full?"
+
+    def is_full_init(view, n, member):
+        """statement n (re)initialises the whole of member"""
+        k = n.get("k")
+        nm = (n.get("callee") or n.get("n") or "").rsplit("::", 1)[-1]
+        args = n.get("a", [])
+        size_of_m = lambda x: any(y.get("k") == "MCall" and y.get("n") == "size" and pcsym.this_field(view.value(y.get("obj") or {})) == member for y in walk(view.value(x)))
+        if k == "Call" and nm == "memset" and len(args) == 3:
+            bm = base_member(view, args[0])
+            return bool(bm and bm[0] == member and bm[1] and size_of_m(args[2]))
+        if k == "Call" and nm in ("fill", "fill_n") and len(args) == 3:
+            bm = base_member(view, args[0])
+            if bm and bm[0] == member and bm[1]:
+                if nm == "fill_n":
+                    return size_of_m(args[1])
+                e = strip(args[1])
+                return e.get("k") == "MCall" and e.get("n") == "end" and pcsym.this_field(e.get("obj") or {}) == member
+        if k == "MCall" and nm == "assign" and pcsym.this_field(n.get("obj") or {}) == member:
+            return True
+        if k == "For":
+            try:
+                c = pcmodel.counting_loop(view, n)
+                l, op, r = pcmodel.cond_on(view, c["cond"], c["d"])
+                if view.value(c["init"]).get("k") == "Int" and int(view.value(c["init"])["v"]) == 0 and op == "<" and c["step"] == 1 and size_of_m(r):
+                    for st in c["stmts"]:
+                        st = strip(st)
+                        if st.get("k") == "Assign" and st.get("op") == "=" and strip(st["lhs"]).get("k") in ("Index", "OpCall"):
+                            t = strip(st["lhs"])
+                            b = t["b"] if t.get("k") == "Index" else t["a"][0]
+                            ix = t["idx"] if t.get("k") == "Index" else t["a"][1]
+                            bm = base_member(view, b) or ((pcsym.this_field(b), True) if pcsym.this_field(b) else None)
+                            if bm and bm[0] == member and strip(ix).get("d") == c["d"]:
+                                return True
+            except NotRecognised:
+                return False
+        return False
+    # functions reached from init_numeric
+    ini = fns["init_numeric"]
+    iv = FnView(ini)
+    reached = []
+    for e in stmts_of(iv):
+        n = iv.byid.get(e)
+        if n and n.get("k") == "MCall" and (n.get("obj") is None or strip(n["obj"]).get("k") == "This") and n.get("n") in fns:
+            reached.append((fns[n["n"]], e))
+    reached.append((ini, None))
+    count = 0
+    for f, call_id in reached:
+        view = FnView(f)
+        partial = {}      # member -> [(stmt id, text)]
+        maybe_init = {}
+        for e in stmts_of(view):
+            n = view.byid.get(e)
+            if not n or n.get("k") not in ("MCall", "Call"):
+                continue
+            for pos, a in enumerate(n.get("a", [])):
+                bm = base_member(view, a)
+                if not bm or bm[0].rsplit("::", 1)[-1] not in {m.rsplit("::", 1)[-1] for m in applied}:
+                    continue
+                pt = n.get("pt") or []
+                ty = f.type(pt[pos]) if pos < len(pt) else ""
+                if ty.strip().startswith("const "):
+                    continue
+                if is_full_init(view, n, bm[0]):
+                    continue
+                kind = callee_store_kind(n, pos) if n.get("k") == "MCall" else None
+                if kind == "partial":
+                    partial.setdefault(bm[0], []).append((e, "%s (stores only under a match test)" % (n.get("n") or n.get("callee"))))
+                elif bm[1]:
+                    maybe_init.setdefault(bm[0], []).append("%s (line %s)" % (n.get("n") or (n.get("callee") or "").rsplit("::", 1)[-1], n.get("l")))
+        for member, plist in sorted(partial.items()):
+            count += 1
+            inits = [e for e in stmts_of(view) if view.byid.get(e) is not None and is_full_init(view, view.byid[e], member)]
+            inits += [n["i"] for n in walk(f.body) if n.get("k") == "For" and is_full_init(view, n, member)]
+            first_use = [e for e, t in plist]
+            ok = False
+            if inits:
+                # every path to a partial write passes an initialisation (a for-loop node is represented by its statements)
+                stop = set()
+                for i0 in inits:
+                    nd = view.byid.get(i0)
+                    stop |= {x.get("i") for x in walk(nd)} if nd is not None and nd.get("k") == "For" else {i0}
+                reach, _ = view.flow_from(None, stop=stop)
+                ok = not any(e in reach for e in first_use)
+            if not ok and call_id is not None:
+                # in init_numeric, before the call
+                inits2 = [e for e in stmts_of(iv) if iv.byid.get(e) is not None and is_full_init(iv, iv.byid[e], member)]
+                inits2 += [n["i"] for n in walk(ini.body) if n.get("k") == "For" and is_full_init(iv, n, member)]
+                if inits2:
+                    stop = set()
+                    for i0 in inits2:
+                        nd = iv.byid.get(i0)
+                        stop |= {x.get("i") for x in walk(nd)} if nd is not None and nd.get("k") == "For" else {i0}
+                    reach, _ = iv.flow_from(None, stop=stop)
+                    ok = call_id not in reach
+            key = "%s::%s/%s" % (inst, f.name, member)
+            if ok:
+                ck.ob(rule, key, True, "%s is re-initialised over its whole extent before %s fills it partially" % (member, plist[0][1]), f.file, view.byid[first_use[0]].get("l"))
+            elif maybe_init.get(member):
+                ck.incomplete(rule, "%s: no modelled whole-array initialisation of %s, but its base pointer is handed to %s" % (key, member, maybe_init[member][0]))
+            else:
+                ck.ob(rule, key, False, "%s is read by apply() and filled here only at the structural non-zeros (%s), but nothing re-initialises it on every path before: "
+                      "a second init_numeric() on the same object builds on the data of the previous factorisation" % (member, plist[0][1]), f.file, view.byid[first_use[0]].get("l"))
+    if count == 0:
+        ck.incomplete(rule, "%s: no partially filled member found (gather routines vanished?)" % inst)
+
+
 # -------------------------------------------------------------------------------------------------
 # wrappers
 # -------------------------------------------------------------------------------------------------
@@ -1302,6 +1578,8 @@ def run(tier):
     ck.rule("E8.refresh-covers", "ILU copy_data_csr / copy_data_bcsr (the fresh value write of E8.numeric-refresh) assigns every slot of the factor arrays on every path of the row loop: _data_l[j] and _data_u[j] for every j of the factor's row segment [row_ptr[i], row_ptr[i+1]) in both the 'found in A' and the 'not in A' branch, _data_d[i] unconditionally; breaks for fill level p >= 1 on the second init_numeric (stale fill-in)", 6)
     ck.rule("E6.ilu-factor-form", "in-place (I+L)(D+U) factorisation, scalar and blocked: every store has one of the forms L_ij <- L_ij * D_jj^-1 (right multiplication), X <- X - L_ij * U_jk (X in L, D, U; L left of U), D_ii <- D_ii^-1, as (non-commutative, for blocks) normal forms; breaks for every block matrix whose blocks do not commute", 10)
     ck.rule("E4.ilu-level-fold", "ILU(p) level of fill lev(i,k) = min_j lev(i,j) + lev(j,k) + 1: _insert folds a duplicate insertion with MIN on every path where the entry exists (neither keep-first nor overwrite) and stores (col, level) for a new entry; factorize_symbolic passes lev(L_ij) + lev(U_jk) + 1 of the two merged entries with the column of the same U entry, inserts iff level <= p, and starts the pattern of A at level 0; breaks for p >= 2 on patterns where an entry is reached through two paths of different level (pattern too small: LU does not match A on the level-p pattern)", 7)
+    ck.rule("E3.merge-cursor", "numeric ILU factorisation (scalar and blocked): every cursor into a sorted column-index row (k over U_j, pl over L_i, pu over U_i) advances either as the increment of a loop over / skipping entries, or in straight code only under a successful match col_idx[cursor] == wanted column; breaks for structurally unsymmetric patterns (U_j has an entry right of column i but none at i: that entry is skipped and its Schur update lost)", 12)
+    ck.rule("E8.partial-fill-reinit", "a vector member that apply() reads and that a function reached from init_numeric() fills only partially (a pointer into it is handed to a gather routine all of whose stores are control-dependent on a match test) is re-initialised over its whole extent (memset / std::fill / assign / full loop over size()) on every path before, in that function or in init_numeric before the call; breaks on every second init_numeric() on one object (Vanka local matrices: the zero blocks hold the previous inverse)", 4)
     ck.rule("E8.symbolic-structure-only", "init_symbolic() (transitively) does not read matrix values (val, extract_diag, apply)", 11)
     ck.rule("E5.operator-form", "apply() evaluated symbolically as a linear operator equals the documented one: Jacobi w D^-1 (omega once), Scale w, Diagonal diag, Matrix M, Polynomial start value M~^-1 def, recurrence x <- (I - M~^-1 A) x + M~^-1 def, _m iterations; breaks for omega != 1 / every input", 9)
 
@@ -1384,6 +1662,7 @@ def run(tier):
                 check_copy_covers(ck, fl[nm], "%s::%s" % (cshort, nm))
             if "factorize_numeric_il_du" in fl:
                 check_factor_form(ck, fl["factorize_numeric_il_du"], "%s::factorize_numeric_il_du" % cshort, t == "ILUCoreBlocked")
+                check_merge_cursor(ck, fl["factorize_numeric_il_du"], "%s::factorize_numeric_il_du" % cshort)
             else:
                 ck.incomplete("E6.ilu-factor-form", "%s: factorize_numeric_il_du vanished" % cshort)
     symb = [c for c in sorted(classes) if tmpl(c) == "ILUCoreSymbolic"]
@@ -1394,6 +1673,17 @@ def run(tier):
     for k in set(IMPL.values()) - seen_kinds:
         ck.incomplete("E7.filter-follows", "no instantiation of the %s preconditioner found" % k)
     check_factories(ck)
+    # Vanka: local matrices gathered into a dense array
+    vfacts = featlib.extract("tu/c08_vanka.cpp", files=featlib.repo_path(SOLVER) + "vanka.hpp")
+    ck.tu(vfacts)
+    for e in (vfacts.errors_in_repo() + vfacts.errors_outside_repo())[:3]:
+        ck.incomplete("E8.partial-fill-reinit", "driver TU tu/c08_vanka.cpp does not compile: %s:%d %s" % (e["file"], e["line"], e["msg"][:200]))
+    vcls = sorted({f.cls for f in vfacts.functions if f.tk != "pattern" and re.match(r"FEAT::Solver::Vanka<", f.cls)})
+    if not vcls:
+        ck.incomplete("E8.partial-fill-reinit", "no instantiation of Solver::Vanka found")
+    for c in vcls:
+        blk = "BCSR" if "SparseMatrixBCSR" in c else "CSR"
+        check_partial_fill_reinit(ck, vfacts, c, "Vanka<SaddlePointMatrix<%s>>" % blk)
 
     ck.assume("matrices are well formed CSR/BCSR with sorted column indices and a stored non-zero diagonal entry in every row (documented requirement of SOR/SSOR/ILU)")
     ck.assume("filter_def/filter_cor are treated as identities in the operator forms; their placement is decided by E7.filter-follows")
